@@ -497,6 +497,8 @@ def reshape_helpers(ctx, rule):
               "%d facts: reshape asserts the element count and rebuilds in row-major order; flatten / get_flat / get_triple are row-major" % len(sub.obligations))
 
 
+RULES["R16.5"] += " | E6 fall-back: on every accepting path of connect the path facts contain an equality between the element counts of layers[infrom].inputs and layers[into].inputs (Single(n) -> n, Triple(c,h,w) -> c*h*w)"
+
 def run(ctx):
     from .common import accumulation_setter
     ctx.guard("R16.3", "accumulation-setter", accumulation_setter, ctx, "R16.3")
